@@ -115,6 +115,7 @@ type Interp struct {
 	onceDone map[*Cell]bool     // sync.Once values already used on this path
 	wgs      map[*Cell]*wgState // sync.WaitGroup counters of this path
 	viperKV  map[string]Value   // viper stand-in: keys set on this path
+	syncMaps map[*Cell]*[]smEntry // sync.Map contents of this path
 	mapCOW  map[*MapVal]*MapVal // this path's private copies of frozen (package-init) maps it wrote to
 
 	prefix []Decision // decisions to follow
